@@ -51,7 +51,7 @@ SCENARIOS = {
     'core::Template': 'a{{x}}b{{y}}c', 'Conditional': '{% if x %}A{{x}}B{% else %}C{% endif %}{% unless x %}D{% else %}E{{y}}F{% endunless %}',
     'Increment': '{% increment n %}{% increment n %}{% decrement n %}', 'Decrement': '{% decrement n %}{% decrement n %}',
     'Capture': '{% capture v %}a{{x}}b{% endcapture %}[{{v}}]', 'IfChanged': '{% for i in a %}{% ifchanged %}{{i}}{% endifchanged %}{% endfor %}',
-    'Case': '{% case x %}{% when 1 %}one{{x}}{% when 2 %}two{% else %}other{{y}}{% endcase %}', 'Cycle': '{% cycle 1, 2 %}{% cycle 1, 2 %}{% cycle 1, 2 %}',
+    'Case': '{% case x %}{% when 1 %}one{{x}}{% when 2 %}two{% when 3, 1 %}again{{y}}{% else %}other{{y}}{% endcase %}', 'Cycle': '{% cycle 1, 2 %}{% cycle 1, 2 %}{% cycle 1, 2 %}',
     'For': '{% for i in a %}<{{i}}>{% else %}none{% endfor %}', 'TableRow': '{% tablerow i in a cols:2 %}{{i}}{% endtablerow %}',
 }
 
@@ -63,7 +63,7 @@ PENDING_INTERRUPT = '{% for i in a %}{% ifchanged %}p{{i}}{% break %}{% endifcha
 def scenario_for(name):
     base = name.split('(')[0]
     if base == 'Partials':
-        return {'kind': 'sinkfault', 'template': "a{% include 'p' %}b{% render 'p' %}c{% render 'q' for a as item %}d", 'partials': {'p': '[partial]', 'q': '[{{ item }}]'}, 'globals': {'x': 1, 'a': [1, 2, 3]}}
+        return {'kind': 'sinkfault', 'template': "a{% include 'p' %}b{% render 'p' %}c{% render 'q' for a as item %}d{% render 'r' %}e{% render 'r' for a as item %}f", 'partials': {'p': '[partial]', 'q': '[{{ item }}]', 'r': '[first{{ item }}]', 'r.liquid': '[fallback]'}, 'globals': {'x': 1, 'a': [1, 2, 3]}}
     tpl = SCENARIOS.get(base)
     if tpl is None: return None
     if base in ('core::Template', 'For', 'TableRow', 'IfChanged', 'Conditional', 'Case', 'Capture'): tpl = tpl + PENDING_INTERRUPT      # these hold child templates
@@ -154,14 +154,14 @@ ALL = ['Text', 'RawT', 'FilterChain', 'Template', 'Conditional', 'Increment', 'D
 def ob_partials_sink(chk, P):
     """include / render / render-for over a failing sink: the partial writes through the caller's writer"""
     from checks.C08 import PartialsEnv, ParentWithPartials
-    for name, form in (('Include', None), ('Render', 'plain'), ('Render', 'for')):
-        label = name if form is None else f'{name}({form})'
+    for name, form, present in (('Include', None, {'p'}), ('Render', 'plain', {'p'}), ('Render', 'for', {'p'}), ('Render', 'plain', {'p', 'p.liquid'}), ('Render', 'for', {'p', 'p.liquid'})):
+        label = name if form is None else f'{name}({form})' if len(present) == 1 else f'{name}({form}, name and name.liquid both stored)'
         with chk.obligation(f'{label}/sink-fault', f'{label}: once a write by the partial fails nothing more is written and the error is returned; what the sink accepted is a prefix of the fault-free output',
                             {'partial': 'abstract: up to 2 writes, may fail, may interrupt', 'sink': 'fails at the K-th write for a solver-chosen K (0 = never); short writes allowed', 'for form': 'array of 2 elements'}) as ob:
             ex = Executor(P, models_with(registers_models())); ex.seed = chk.seed; ex.max_steps = 60000
             st = State(); sink = SinkEnv('W')
             child = ChildEnv('partial', sink, 2, owner='scope')
-            penv = ParentWithPartials(('x',), PartialsEnv({'p'}, child))
+            penv = ParentWithPartials(('x',), PartialsEnv(present, child))
             nm = expr_stub(value_scalar(scalar_str('p')), 'name')
             if name == 'Include':
                 fn = P.find_method('Include', 'render_to', 'Renderable', 'lib', 'stdlib/tags/include_tag.rs')
